@@ -319,16 +319,16 @@ fn exhaustive_units(with_hostile: bool, budget: u64) -> Vec<(String, String, Vec
 pub fn check(ctx: &mut Ctx, which: &'static str) {
     let is07 = which == "C07";
     if is07 {
-        ctx.rule = "cases = (source, start delimiter, end delimiter). Exhaustive: every string of at most L atoms over {each delimiter character, the whole delimiters, 'x', space, line break, 2-/3-/4-byte character} for each of 24 delimiter pairs (15 regular + 9 hostile), L chosen per pair so that atoms^L stays within the tier budget; random: strings of 12..132 delimiter-aware atoms. Non-trivial = at least two tokens and at least one multi-byte character; enumerated cases are distinct by construction, random ones are de-duplicated by hash (they are longer than any enumerated string).".into();
+        ctx.rule = "cases = (source, start delimiter, end delimiter). Exhaustive: every string of at most L atoms over {each delimiter character, the whole delimiters, 'x', space, line break, 2-/3-/4-byte character} for each of 27 delimiter pairs (18 regular + 9 hostile), L chosen per pair so that atoms^L stays within the tier budget; random: strings of 12..132 delimiter-aware atoms. Non-trivial = at least two tokens and at least one multi-byte character; enumerated cases are distinct by construction, random ones are de-duplicated by hash (they are longer than any enumerated string).".into();
     } else {
-        ctx.rule = "cases as for C07 (same enumeration, 24 delimiter pairs incl. all pairs named in the property). Oracle: tag-token byte spans == spans of the textbook left-to-right scan (leftmost start delimiter, one body character, first end delimiter after it), text tokens == the gaps. Non-trivial = the string contains a failed partial delimiter match (first delimiter character not followed by the whole delimiter) or at least two delimiter occurrences.".into();
+        ctx.rule = "cases as for C07 (same enumeration, 27 delimiter pairs incl. all pairs named in the property). Oracle: tag-token byte spans == spans of the textbook left-to-right scan (leftmost start delimiter, one body character, first end delimiter after it), text tokens == the gaps. Non-trivial = the string contains a failed partial delimiter match (first delimiter character not followed by the whole delimiter) or at least two delimiter occurrences.".into();
     }
     ctx.assume("start and end delimiter are non-empty (the property's own precondition)");
     ctx.require_class(if is07 { "last-char-multibyte" } else { "occurrence-begins-inside-failed-partial-match" });
     ctx.replay_corpus(|sub, case, obs| replay(which, sub, case, obs));
     let budget = ctx.tier.pick(6_000_000u64, 60_000_000u64);
     let units = exhaustive_units(true, budget);
-    let desc = format!("all atom strings with atoms^L <= {budget} per delimiter pair, 24 pairs; L per pair: {}", {
+    let desc = format!("all atom strings with atoms^L <= {budget} per delimiter pair, 27 pairs; L per pair: {}", {
         let mut v = vec![];
         for (ds, de) in all_pairs(true) {
             let a = atoms_for(ds, de);
